@@ -3,7 +3,9 @@ use super::Vm;
 use crate::source::Source;
 use laythe_core::{
   constants::SELF,
+  module::Module,
   object::ObjectKind,
+  Ref,
   val,
   value::Value,
   verif as core_verif,
@@ -215,7 +217,17 @@ impl Vm {
   /// Describe every native reachable from the global module as json
   pub fn verif_natives_dump(&self) -> String {
     let mut out: Vec<String> = Vec::new();
-    let module = self.global_module;
+    Self::verif_natives_of(self.global_module, None, &mut out);
+    format!("[{}]", out.join(","))
+  }
+
+  /// the natives of a module and of the modules below it; `import` is the dotted import
+  /// path of the module (None for the global module whose symbols need no import)
+  fn verif_natives_of(module: Ref<Module>, import: Option<String>, out: &mut Vec<String>) {
+    let import_json = match &import {
+      Some(path) => core_verif::json_str(path),
+      None => "null".to_string(),
+    };
     for (name, value) in module.verif_symbols() {
       if !value.is_obj() {
         continue;
@@ -225,7 +237,8 @@ impl Vm {
         ObjectKind::Native => {
           let native = obj.to_native();
           out.push(format!(
-            "{{\"owner\":null,\"name\":{},\"static\":false,\"sig\":{}}}",
+            "{{\"module\":{},\"owner\":null,\"name\":{},\"static\":false,\"sig\":{}}}",
+            import_json,
             core_verif::json_str(&name),
             native.verif_signature_json()
           ));
@@ -238,7 +251,8 @@ impl Vm {
               let native = method.to_obj().to_native();
               let _ = write!(
                 s,
-                "{{\"owner\":{},\"name\":{},\"static\":false,\"sig\":{}}}",
+                "{{\"module\":{},\"owner\":{},\"name\":{},\"static\":false,\"sig\":{}}}",
+                import_json,
                 core_verif::json_str(&name),
                 core_verif::json_str(&mname),
                 native.verif_signature_json()
@@ -252,7 +266,8 @@ impl Vm {
                 let native = method.to_obj().to_native();
                 let _ = write!(
                   s,
-                  "{{\"owner\":{},\"name\":{},\"static\":true,\"sig\":{}}}",
+                  "{{\"module\":{},\"owner\":{},\"name\":{},\"static\":true,\"sig\":{}}}",
+                  import_json,
                   core_verif::json_str(&name),
                   core_verif::json_str(&mname),
                   native.verif_signature_json()
@@ -265,6 +280,14 @@ impl Vm {
         _ => (),
       }
     }
-    format!("[{}]", out.join(","))
+    let mut children: Vec<(String, Ref<Module>)> = module
+      .modules()
+      .map(|(name, child)| (name.to_string(), *child))
+      .collect();
+    children.sort_by(|a, b| a.0.cmp(&b.0));
+    let base = import.unwrap_or_else(|| module.name().to_string());
+    for (name, child) in children {
+      Self::verif_natives_of(child, Some(format!("{base}.{name}")), out);
+    }
   }
 }
